@@ -1127,3 +1127,57 @@ V("BENIGN-plain-dict-data", "C01", "Config._data created as a plain dict", CORE,
   old="        self._data: Dict[str, Any] = OrderedDict()", new="        self._data: Dict[str, Any] = {}")
 V("BENIGN-validate-walrus", "C11", "load_tree validation flag tested via local", CORE, expect="silent",
   old="        if validate:\n            self.validate()", new="        run_validation = validate\n        if run_validation:\n            self.validate()")
+
+# ------------------------------------------------------------------------------------------ benign refactors, batch 2
+V("BENIGN-iv-secrets", "C08", "IV drawn with secrets.token_bytes", ENC, expect="silent", check=["C08", "C03", "C07"], edits=[
+    (ENC, "import os\nfrom itertools import cycle", "import os\nimport secrets\nfrom itertools import cycle"),
+    (ENC, "        iv = os.urandom(16)\n        cipher = Cipher(", "        iv = secrets.token_bytes(16)\n        cipher = Cipher(")])
+V("BENIGN-decrypt-parallel-assign", "C08", "decrypt splits IV and payload in one parallel assignment", ENC, expect="silent", check=["C08", "C03"],
+  old="        iv = ciphertext[:16]\n        ciphertext = ciphertext[16:]", new="        iv, ciphertext = ciphertext[:16], ciphertext[16:]")
+V("BENIGN-pkcs7-block-size", "C08", "padding block taken from algorithms.AES.block_size", ENC, expect="silent", check=["C08", "C03"], edits=[
+    (ENC, "        unpadder = padding.PKCS7(128).unpadder()", "        unpadder = padding.PKCS7(algorithms.AES.block_size).unpadder()"),
+    (ENC, "        padder = padding.PKCS7(128).padder()", "        padder = padding.PKCS7(algorithms.AES.block_size).padder()")])
+V("BENIGN-challenge-compare-digest", "C09", "challenge compares with hmac.compare_digest", SEC, expect="silent", edits=[
+    (SEC, "import hashlib\nimport os", "import hashlib\nimport hmac\nimport os"),
+    (SEC, "        if self.digest != challenge:\n            raise ValueError(\"challenge failed\")",
+     "        if not hmac.compare_digest(self.digest, challenge):\n            raise ValueError(\"challenge failed\")")])
+V("BENIGN-create-hash-ctor-arg", "C09", "create hashes by passing the data to the constructor", SEC, expect="silent",
+  old="        hasher.update(salt + plaintext)\n        return DigestValue(salt, hasher.digest(), algorithm)",
+  new="        digest = algorithm(salt + plaintext).digest()\n        return DigestValue(salt, digest, algorithm)")
+V("BENIGN-xml-attrib-set", "C04", "XML writer sets the type attribute with ele.set()", XML, expect="silent", check=["C04", "C02"], edits=[
+    (XML, "            ele.attrib[\"type\"] = \"str\"", "            ele.set(\"type\", \"str\")"),
+    (XML, "            ele.attrib[\"type\"] = \"none\"", "            ele.set(\"type\", \"none\")")])
+V("BENIGN-copy-type-self", "C17", "ListProxy.copy builds type(self)(...)", LIST, expect="silent", check=["C17", "C01"],
+  old="        return ListProxy(self.cfg, self.list_field, self)", new="        return type(self)(self.cfg, self.list_field, self)")
+V("BENIGN-add-field-helper", "C13", "Schema._add_field registers through a private helper", CORE, expect="silent", check=["C13", "C20", "C14"], edits=[
+    (CORE, "        self._fields[name] = field  # type: ignore\n        field.__setkey__(self, name)\n        return field  # type: ignore",
+     "        self._register(name, field)\n        return field  # type: ignore\n\n    def _register(self, name: str, field: BaseField) -> None:\n        self._fields[name] = field\n        field.__setkey__(self, name)")])
+V("BENIGN-mark-ior", "C12", "_set_default_value marks with |=", CORE, expect="silent", check=["C12", "C06"],
+  old="        self._default_value_keys.add(key)", new="        self._default_value_keys |= {key}")
+V("BENIGN-bounds-demorgan", "C05", "min bound written as not (min is None or num >= min)", NUM, expect="silent", check=["C05", "C01"],
+  old="        if self.min is not None and num < self.min:", new="        if not (self.min is None or num >= self.min):")
+V("BENIGN-getenv", "C14", "environment read through os.getenv on both sides", CORE, expect="silent", edits=[
+    (CORE, "            env_value = os.environ.get(self.env)", "            env_value = os.getenv(self.env)"),
+    (CORE, "                    and os.environ.get(field.env)\n", "                    and os.getenv(field.env)\n")])
+V("BENIGN-append-explicit-base", "C01", "ListProxy.append calls list.append(self, ...)", LIST, expect="silent", check=["C01", "C06", "C17"],
+  old="        super().append(self._validate(item))", new="        list.append(self, self._validate(item))")
+V("BENIGN-reset-chained", "C12", "reset_value without the local", SUP, expect="silent",
+  old="    field = config._get_field(key)\n    if not field:\n        raise AttributeError(key)\n\n    field.__setdefault__(config)",
+  new="    if not config._get_field(key):\n        raise AttributeError(key)\n\n    config._get_field(key).__setdefault__(config)")
+
+# ------------------------------------------------------------------------------------------ found by the mutation sweep
+V("SWEEP-adopted-no-parent", "C15", "a Config assigned to a sub-config field is not re-parented", CORE, check=["C15", "C03", "C02"],
+  old="            value._parent = self\n            value._key = key", new="            value._key = key", expect_rule="link.adopted @ Config._set_value")
+V("SWEEP-list-adopted-no-parent", "C15", "a Config appended to a list of configs keeps its old parent", LIST, check=["C15", "C03"],
+  old="                value._parent = self.cfg\n                value._key", new="                value._key", expect_rule="link.adopted @ ListProxy._validate")
+V("SWEEP-load-args-swapped", "C01", "load_tree calls _set_value(value, key)", CORE, check=["C01", "C02"],
+  old="            self._set_value(key, value)\n\n        if validate:", new="            self._set_value(value, key)\n\n        if validate:", expect_rule="load.")
+V("SWEEP-validator-args-swapped", "C01", "custom validator called with (value, cfg)", CORE,
+  old="            value = self.validator(cfg, value)", new="            value = self.validator(value, cfg)", expect_rule="validate.call-args")
+V("SWEEP-list-no-type-gate", "C01", "ListField accepts any iterable (a str becomes a list of characters)", LIST,
+  old="        if not isinstance(value, (list, tuple)):\n            raise ValueError(\"value is not a list\")\n\n", new="", expect_rule="validator.type-gate @ ListField._validate")
+V("SWEEP-number-bool-and", "C05", "bool exclusion only evaluated for non-numbers", NUM, check=["C05", "C01"],
+  old="        if not isinstance(value, (str, int, float, self.type_cls)) or isinstance(\n            value, bool\n        ):",
+  new="        if not isinstance(value, (str, int, float, self.type_cls)) and isinstance(\n            value, bool\n        ):", expect_rule="number.rejects-bool")
+V("SWEEP-dynamic-field-wrong-key", "C01", "dynamic field registered under one key, told another", CORE,
+  old="            field.__setkey__(self._schema, key)", new="            field.__setkey__(self._schema, key.lower())", expect_rule="lemma.key-invariant")
